@@ -3,6 +3,7 @@ CONSTANTS
   Kind = "b"
   MaxOps = 3
   Gen = FALSE
+  Tx = FALSE
   Alphabet = "large"
 VIEW AbstractView
 INVARIANTS IsMap QuerySound CandidatesSound NQUnique
